@@ -481,15 +481,32 @@ Theorem C09_inv_MoveAssign : forall C w d, PoolInv.J C w -> PoolInv.J C (PoolCon
 Proof. exact PoolInv.MoveAssign_J. Qed.
 Print Assumptions C09_inv_MoveAssign.
 
-(* completeness clause (every block of an owned buffer is in its chain, live, cached or the block in transit): defined in
-   PoolCompl.v with a general transfer lemma and preserved by the counter/ghost and cache steps.  NOT yet carried through
-   take / attach_new / pvDeleteBlock / MergeFrom / DeallocateAll, hence no DeallocateIf theorem (see NOTES.md). *)
-Theorem C09_compl_partial_ghost_steps : forall C q bk w,
-  (PoolCompl.Compl C q (Some bk) w -> PoolCompl.Compl C q None (PoolConc.add_live w q bk)) /\
-  (PoolCompl.Compl C q None w -> PoolCompl.Compl C q (Some bk) (PoolConc.remove_live w q bk)) /\
-  (PoolCompl.Compl C q (Some bk) w -> PoolCompl.Compl C q None (PoolConc.set_cache w q (bk :: PoolConc.cache (PoolConc.getp w q)))).
-Proof. exact PoolCompl.ghost_steps. Qed.
-Print Assumptions C09_compl_partial_ghost_steps.
+(* THE INVARIANT EXTENDED BY THE COMPLETENESS CLAUSE (every block of an owned buffer is in its buffer's free chain, live, cached
+   or the block in transit) holds after EVERY history over the FULL alphabet: Allocate, Deallocate (of live blocks), MergeFrom,
+   DeallocateAll, Swap, move assignment AND DeallocateIf (with an arbitrary filter), on both pools. *)
+Theorem C09_inv_all_histories_full : forall C, 1 <= C -> forall CF uc ops,
+  PoolInv.J C (PoolCompl.frun C CF uc ops) /\ PoolCompl.Compl C false None (PoolCompl.frun C CF uc ops) /\
+  PoolInv.nocache uc (PoolCompl.frun C CF uc ops).
+Proof. exact PoolCompl.JC_all_histories. Qed.
+Print Assumptions C09_inv_all_histories_full.
+
+(* DeallocateIf / pvDeleteBlocks (682-706, 360-384) preserve the invariant and the completeness clause for every filter, and the
+   blocks live afterwards were live before (nothing is invented). *)
+Theorem C09_inv_DeallocateIf : forall C, 1 <= C -> forall uc p f w,
+  (uc = false -> PoolConc.cache (PoolConc.getp w p) = []) -> PoolCompl.JC C p None w ->
+  PoolCompl.JC C p None (PoolConc.DeallocateIf C uc w p f) /\
+  (forall bk, In bk (PoolConc.live (PoolConc.getp (PoolConc.DeallocateIf C uc w p f) p)) -> In bk (PoolConc.live (PoolConc.getp w p))).
+Proof. exact PoolCompl.DeallocateIf_JC. Qed.
+Print Assumptions C09_inv_DeallocateIf.
+
+(* partial form of "DeallocateIf frees exactly the selected blocks": after every history, the blocks still live after a
+   DeallocateIf were live before.  NOT yet proved: that every live block the filter selects is freed and every other live block
+   stays (the traversal covers all owned buffers) - see NOTES.md. *)
+Theorem C09_deallocate_if_only_live_partial : forall C, 1 <= C -> forall CF uc ops p f,
+  let w := PoolCompl.frun C CF uc ops in
+  forall bk, In bk (PoolConc.live (PoolConc.getp (PoolConc.DeallocateIf C uc w p f) p)) -> In bk (PoolConc.live (PoolConc.getp w p)).
+Proof. exact PoolCompl.DeallocateIf_only_live. Qed.
+Print Assumptions C09_deallocate_if_only_live_partial.
 
 (* blockCount = 1, address level: two different blocks of single-block pools (two manager allocations that do not overlap) are
    aligned, inside their manager blocks and disjoint, for every alignment 1..1024 and all 16-aligned manager addresses.  The
